@@ -340,14 +340,20 @@ type c25Tamper struct {
 }
 
 // c25Tampers enumerates every tamper of one sealed packet. apply returns the tampered copy.
-func c25Tampers(pkt *frame.SendPacket, other *frame.SendPacket, thorough bool, emit func(t c25Tamper, tampered *frame.SendPacket)) {
+// With edge set only the bits of the first 2 / last 4 bytes of the base64 text and of the first 2 / last 2
+// bytes of the raw ciphertext are flipped (same Kind / Index as in the full neighbourhood).
+func c25Tampers(pkt *frame.SendPacket, other *frame.SendPacket, edge bool, emit func(t c25Tamper, tampered *frame.SendPacket)) {
 	clone := func() *frame.SendPacket {
 		c := *pkt
 		c.Payload = append([]byte(nil), pkt.Payload...)
 		return &c
 	}
+	atEdge := func(i, n, head, tail int) bool { return !edge || i < head || i >= n-tail }
 	// (1) every bit of the transmitted (base64) ciphertext
 	for bit := 0; bit < len(pkt.Payload)*8; bit++ {
+		if !atEdge(bit/8, len(pkt.Payload), 2, 4) {
+			continue
+		}
 		c := clone()
 		c.Payload[bit/8] ^= 1 << (bit % 8)
 		emit(c25Tamper{Kind: "ciphertext-text-bit", Index: bit}, c)
@@ -355,11 +361,17 @@ func c25Tampers(pkt *frame.SendPacket, other *frame.SendPacket, thorough bool, e
 	// (2) every bit of the raw ciphertext (re-encoded as valid base64)
 	raw, _ := base64.StdEncoding.DecodeString(string(pkt.Payload))
 	for bit := 0; bit < len(raw)*8; bit++ {
+		if !atEdge(bit/8, len(raw), 2, 2) {
+			continue
+		}
 		r := append([]byte(nil), raw...)
 		r[bit/8] ^= 1 << (bit % 8)
 		c := clone()
 		c.Payload = []byte(base64.StdEncoding.EncodeToString(r))
 		emit(c25Tamper{Kind: "ciphertext-raw-bit", Index: bit}, c)
+	}
+	if edge {
+		return
 	}
 	// (3) other payload shapes
 	block := raw
@@ -470,17 +482,19 @@ type c25Replay struct {
 	Other      *c25Send   `json:"other_send,omitempty"`
 	Tamper     *c25Tamper `json:"tamper,omitempty"`
 	Thorough   bool       `json:"thorough,omitempty"`
+	Edge       bool       `json:"edge_bits_only,omitempty"`
+	System     string     `json:"section,omitempty"`
 }
 
 // c25CheckTampers runs the whole tamper neighbourhood of one packet; only != nil restricts it to one tamper (replay).
-func c25CheckTampers(r *ev.R, e *ev.Enum, sess *c25Session, m c25Send, other c25Send, thorough bool, only *c25Tamper, kinds map[string]int64) {
+func c25CheckTampers(r *ev.R, e *ev.Enum, system string, edge bool, sess *c25Session, m c25Send, other c25Send, thorough bool, only *c25Tamper, kinds map[string]int64) {
 	pkt, err := c25Seal(sess, m)
 	otherPkt, err2 := c25Seal(sess, other)
 	rp := func(t *c25Tamper) c25Replay {
-		return c25Replay{Kind: "tamper", ClientSeed: sess.C, ServerSeed: sess.S, Send: &m, Other: &other, Tamper: t, Thorough: thorough}
+		return c25Replay{Kind: "tamper", ClientSeed: sess.C, ServerSeed: sess.S, Send: &m, Other: &other, Tamper: t, Thorough: thorough, Edge: edge, System: system}
 	}
 	if err != nil || err2 != nil {
-		r.Violation(ev.Violation{Fingerprint: "C25:client-seal-error", Message: fmt.Sprintf("sealing %+v: %v %v", m, err, err2), System: "send-tamper", Replay: rp(nil)})
+		r.Violation(ev.Violation{Fingerprint: "C25:client-seal-error", Message: fmt.Sprintf("sealing %+v: %v %v", m, err, err2), System: system, Replay: rp(nil)})
 		return
 	}
 	// the untampered packet must be accepted and decrypt to the plaintext
@@ -500,10 +514,10 @@ func c25CheckTampers(r *ev.R, e *ev.Enum, sess *c25Session, m c25Send, other c25
 			if only != nil {
 				r.MarkReplayReproduced()
 			}
-			r.Violation(ev.Violation{Fingerprint: v.fp, Message: v.msg, System: "send-tamper", Replay: rp(&c25Tamper{Kind: "none"})})
+			r.Violation(ev.Violation{Fingerprint: v.fp, Message: v.msg, System: system, Replay: rp(&c25Tamper{Kind: "none"})})
 		}
 	}
-	c25Tampers(pkt, otherPkt, thorough, func(t c25Tamper, tampered *frame.SendPacket) {
+	c25Tampers(pkt, otherPkt, edge, func(t c25Tamper, tampered *frame.SendPacket) {
 		if only != nil && (only.Kind != t.Kind || only.Index != t.Index) {
 			return
 		}
@@ -524,7 +538,7 @@ func c25CheckTampers(r *ev.R, e *ev.Enum, sess *c25Session, m c25Send, other c25
 				r.MarkReplayReproduced()
 			}
 			tt := t
-			r.Violation(ev.Violation{Fingerprint: v.fp, Message: v.msg, System: "send-tamper", Replay: rp(&tt)})
+			r.Violation(ev.Violation{Fingerprint: v.fp, Message: v.msg, System: system, Replay: rp(&tt)})
 		}
 	})
 }
@@ -560,6 +574,94 @@ func c25BoundaryShifts(r *ev.R, sess *c25Session) {
 	r.Count("boundary_shift_pairs_accepted_informational", accepted)
 }
 
+// c25BoundarySeqs: every power of ten with its neighbours, the ends of the x00..x09 ranges
+// (109/110, 1099/1100, ...) and the binary limits, up to the type's maximum.
+func c25BoundarySeqs() []uint64 {
+	set := map[uint64]bool{0: true, 1: true, 9: true, 1<<31 - 1: true, 1 << 31: true, 1<<32 - 1: true, 1 << 32: true, 1<<63 - 1: true, 1 << 63: true, 1<<64 - 1: true, 1<<64 - 2: true}
+	p := uint64(1)
+	for k := 1; k <= 19; k++ {
+		p *= 10
+		for _, v := range []uint64{p - 1, p, p + 1, p + p/10 - 1, p + p/10, p + 9, p + 10} {
+			set[v] = true
+		}
+	}
+	var out []uint64
+	for v := range set {
+		out = append(out, v)
+	}
+	sort.Slice(out, func(i, j int) bool { return out[i] < out[j] })
+	return out
+}
+
+// c25DecimalBoundaries: the signed string contains ClientSeq and ChannelType in decimal, so their
+// decimal lengths decide where the payload starts and ends inside it. Every boundary ClientSeq x
+// every ChannelType (and every boundary length of the two string fields): flipping any bit of the
+// first / last bytes of the ciphertext must still be detected.
+func c25DecimalBoundaries(r *ev.R, sessions []*c25Session, th bool) {
+	const system = "send-tamper-decimal-boundaries"
+	e := r.NewEnum(system)
+	seqs := c25BoundarySeqs()
+	typeEdges := []uint8{0, 1, 2, 9, 10, 11, 19, 20, 99, 100, 101, 109, 110, 199, 200, 255}
+	kinds := map[string]int64{}
+	packets := 0
+	run := func(sess *c25Session, m c25Send, edge bool) {
+		other := m
+		other.PlainLen += 16
+		c25CheckTampers(r, e, system, edge, sess, m, other, th, nil, kinds)
+		packets++
+	}
+	for si, sess := range sessions {
+		// (A) ClientSeq x ChannelType
+		for _, q := range seqs {
+			if !th && q > 1<<32 {
+				// quick: sequence numbers beyond the 32-bit wire field only with the boundary channel types
+				for _, t := range typeEdges {
+					run(sess, c25Send{q, "m1", "g1", t, 17, 2}, true)
+				}
+				continue
+			}
+			for t := 0; t < 256; t++ {
+				run(sess, c25Send{q, "m1", "g1", uint8(t), 17, 2}, true)
+			}
+		}
+		// (B) boundary lengths of the string fields (incl. signed strings around the 256-byte scratch size)
+		for _, ml := range []int{0, 1, 9, 10, 99, 100, 180, 200, 220, 255, 256, 1000} {
+			for _, cl := range []int{1, 10, 100} {
+				for _, q := range []uint64{0, 10, 100} {
+					for _, t := range []uint8{2, 10, 100} {
+						run(sess, c25Send{q, strings.Repeat("n", ml), strings.Repeat("c", cl), t, 17, 2}, true)
+					}
+				}
+			}
+		}
+		// (C) the complete tamper neighbourhood on the boundary x boundary menu with three payload sizes
+		if th || si == 0 {
+			for _, q := range seqs {
+				if !th && q > 11000 && q != 1<<32-1 {
+					continue
+				}
+				for _, t := range typeEdges {
+					if !th && t != 2 && t != 10 && t != 100 {
+						continue
+					}
+					for li, l := range []int{0, 16, 33} {
+						run(sess, c25Send{q, "m1", "g1", t, l, li}, false)
+					}
+				}
+			}
+		}
+	}
+	b := map[string]any{"sessions": len(sessions), "client_seqs": len(seqs), "client_seq_max": seqs[len(seqs)-1], "channel_types": 256, "channel_type_edges": typeEdges, "packets": packets}
+	for k, n := range kinds {
+		b["tampers_"+k] = n
+	}
+	e.Done(true, b, "(A) every boundary ClientSeq (10^k and neighbours, x09/x10 range ends, 2^31, 2^32, 2^63, 2^64-1) x all 256 ChannelType values, (B) boundary lengths of ClientMsgNo / ChannelID: every bit of the first 2 / last 4 base64 bytes and first 2 / last 2 raw ciphertext bytes; (C) boundary x boundary menu x 3 payload sizes: the complete tamper neighbourhood")
+	r.Guard("decimal-boundaries-genuine-accepted", e.Outcome("genuine-accepted") == int64(packets) && packets >= 10000, "genuine packets accepted: %d of %d", e.Outcome("genuine-accepted"), packets)
+	r.Guard("decimal-boundaries-last-bytes", e.Outcome("ciphertext-text-bit:rejected") >= int64(packets)*48 && e.Outcome("ciphertext-raw-bit:rejected") >= int64(packets)*32,
+		"edge ciphertext bits rejected: text %d raw %d for %d packets", e.Outcome("ciphertext-text-bit:rejected"), e.Outcome("ciphertext-raw-bit:rejected"), packets)
+	r.Sample(map[string]any{"case": "decimal boundary tamper", "send": c25Send{100, "m1", "g1", 10, 17, 2}, "tamper": "last bit of the last base64 byte", "outcome": "rejected"})
+}
+
 func TestVerifC25(t *testing.T) {
 	r := ev.Start(t, "C25")
 	defer r.Finish()
@@ -587,7 +689,7 @@ func TestVerifC25(t *testing.T) {
 			if rp.Other != nil {
 				other = *rp.Other
 			}
-			c25CheckTampers(r, e, sess, *rp.Send, other, rp.Thorough, rp.Tamper, nil)
+			c25CheckTampers(r, e, rf.System, rp.Edge, sess, *rp.Send, other, rp.Thorough, rp.Tamper, nil)
 		default:
 			e.CaseByConstruction(true, out)
 		}
@@ -710,7 +812,7 @@ func TestVerifC25(t *testing.T) {
 			if other.PlainLen == m.PlainLen && other.Pattern == m.Pattern {
 				other.PlainLen += 16
 			}
-			c25CheckTampers(r, e3, sess, m, other, th, nil, kinds)
+			c25CheckTampers(r, e3, "send-tamper", false, sess, m, other, th, nil, kinds)
 		}
 	}
 	b3 := map[string]any{"sessions": len(tamperSessions), "send_packets": len(menu), "client_seqs": c25Seqs, "client_msg_nos": c25MsgNos, "channel_ids": c25Channels}
@@ -723,6 +825,8 @@ func TestVerifC25(t *testing.T) {
 		len(kinds), e3.Outcome("ciphertext-text-bit:rejected"), e3.Outcome("msgkey-bit:rejected"))
 	sm := menu[len(menu)/2]
 	r.Sample(map[string]any{"case": "tamper", "session": fmt.Sprintf("%d/%d", tamperSessions[0].C, tamperSessions[0].S), "send": sm, "tamper": "ciphertext-raw-bit #0", "outcome": "rejected (ErrMsgKeyMismatch)"})
+
+	c25DecimalBoundaries(r, tamperSessions[:ev.Pick(r, 1, 2)], th)
 
 	c25BoundaryShifts(r, use[0])
 
